@@ -285,6 +285,41 @@ def rule_h1(repo, res):
                         "quantity through the decoder", where=f"pvl/parser.py:{pu.lineno}"))
 
 
+def rule_token_src(repo, res):
+    """TOKEN-SRC: a Token the parser builds stands for text of the document: its content is a lexer token, a slice of
+    self.doc or a str() of one -- never a *decoded value* taken back out of the module being built.  The decoded value
+    of `NULL` is None, of `TRUE` True, of `12:00:00Z` a time object: str() of those is another text ('None', 'True',
+    '12:00:00+00:00'), so a name recovered that way is not the name in the label."""
+    n = 0
+    for c in sorted(repo.subclasses("PVLParser")):
+        for m, fn in repo.classes[c].methods.items():
+            ps = {a.arg for a in fn.args.args}
+            containers = {p_ for p_ in ps if p_ in ("module", "m", "agg", "container", "mod")}
+            if not containers:
+                continue
+            # names bound from items of the container: (k, v) = module[-1] / v = module[-1][1] / for k, v in module ...
+            from_items = set()
+            for a in ast.walk(fn):
+                if isinstance(a, ast.Assign) and any(isinstance(x, ast.Subscript) and isinstance(x.value, ast.Name) and x.value.id in containers
+                                                     for x in ast.walk(a.value)):
+                    for t in a.targets:
+                        for x in ast.walk(t):
+                            if isinstance(x, ast.Name):
+                                from_items.add(x.id)
+            for call in [x for x in ast.walk(fn) if isinstance(x, ast.Call) and norm(x.func) == "Token" and x.args]:
+                n += 1
+                a0 = call.args[0]
+                bad = any(isinstance(x, ast.Name) and x.id in from_items for x in ast.walk(a0))
+                res.oblige("TOKEN-SRC", f"{c}.{m} `{norm(call, 60)}` is built from document text", ok=not bad)
+                if bad:
+                    res.add(Finding("TOKEN-SRC", f"{c}.{m}", "Token built from a decoded value",
+                                    f"{c}.{m} builds `{norm(call, 70)}` from a value it takes back out of the module: that is the "
+                                    "*decoded* value, and str() of a decoded NULL / TRUE / date-time is not the text that stood in "
+                                    "the label ('None', 'True', '12:00:00+00:00'): a parameter name recovered this way is altered",
+                                    where=f"pvl/parser.py:{call.lineno}"))
+    res.oblige("TOKEN-SRC", f"{n} Token construction(s) in parser methods that hold a container examined", ok=True, nontrivial=False)
+
+
 def rule_h5(repo, res):
     """H5: an object the caller hands to a parser, decoder or encoder is used as it is.  Abstract interpretation of the
     constructors (vsa.ctor) with a given decoder D and grammar G: afterwards self.decoder *is* D and self.grammar *is*
